@@ -270,6 +270,7 @@ class Sim:
         self.torn = False
         self.injected = []         # exception instances the harness injected
         self.inj_by_pool = Counter()
+        self.cb_cancelled = Counter()
         self.probe_mode = False
         self.states = set()        # abstract states reached
         self.harness_errors = []
@@ -1428,6 +1429,8 @@ class Sim:
             if d.rex:
                 self.violate("C13", "flush_rex_raised", f"flush(return_exceptions=True) raised {type(exc).__name__}: {exc}")
                 self.violate("C12", "flush_rex_raised", f"flush(return_exceptions=True) raised {type(exc).__name__}: {exc}")
+            elif isinstance(exc, CancelledError) and self.cb_cancelled[pc.idx]:
+                self.stats["probe:flush_raised_callback_cancellation"] += 1
             elif not any(exc is e for e in self.injected):
                 self.violate("C12", "flush_foreign_exception", f"flush() raised {type(exc).__name__}: {exc!r}, not an exception of a task or callback")
                 self.violate("C13", "flush_foreign_exception", f"flush() raised {type(exc).__name__}: {exc!r}")
@@ -1485,7 +1488,7 @@ class Sim:
         if exc is not None:
             d.state = "raised"
             d.exc = exc
-            injected = any(exc is e for e in self.injected)
+            injected = any(exc is e for e in self.injected) or (isinstance(exc, CancelledError) and self.cb_cancelled[pc.idx] > 0)
             if d.rex:
                 self.violate("C12", "gather_rex_raised", f"gather_and_close(return_exceptions=True) raised {type(exc).__name__}: {exc!r}")
             elif not injected:
@@ -1562,7 +1565,15 @@ class Sim:
         if fut is None or fut.done():
             return False
         del self.gates[key]
-        if step.get("how") == "x" and key[0] == "w":
+        if step.get("how") == "c" and key[0] == "c":
+            # the future the callback awaits gets cancelled: CancelledError inside the user callback
+            r = self.reqs.get(key[2])
+            if r is not None:
+                self.inj_by_pool[r.pc.idx] += 1
+                self.cb_cancelled[r.pc.idx] += 1
+            self.stats["fault:callback_cancelled"] += 1
+            fut.cancel()
+        elif step.get("how") == "x" and key[0] == "w":
             e = WorkerError(f"gate {key}")
             self.injected.append(e)
             r = self.reqs.get(key[1])
